@@ -296,6 +296,13 @@ class UnitRegistry:
             if dims is not v[1]:
                 self.lut[k] = (v[0], dims) + tuple(v[2:])
 
+    def __copy__(self):
+        # another handle on the same table and memo (as before __setstate__
+        # existed); the table is shared, so there is nothing to re-intern
+        ret = type(self).__new__(type(self))
+        ret.__dict__.update(self.__dict__)
+        return ret
+
     def __deepcopy__(self, memodict=None):
         # the table's values are immutable tuples; copying the dict is enough,
         # keeps the dimension singletons, and must not re-apply the defaults
